@@ -670,6 +670,141 @@ impl C14 {
         }
     }
 
+    /// TCP option *element* lists around the 40 octet limit, with selective acknowledgements whose
+    /// optional blocks have holes (the encoder packs them: the size that counts is what is written)
+    fn tcp_elements(&mut self, rep: &mut Report, rng: &mut Prng) {
+        use crate::refmodel::tcpopts::ROpt;
+        let target = rng.range(24, 70) as usize;
+        let mut elems: Vec<TcpOptionElement> = Vec::new();
+        let mut refs: Vec<ROpt> = Vec::new();
+        let mut size = 0usize;
+        while size < target && elems.len() < 48 {
+            match rng.below(7) {
+                0 => {
+                    elems.push(TcpOptionElement::Noop);
+                    refs.push(ROpt::Nop);
+                    size += 1;
+                }
+                1 => {
+                    let v = rng.u16_corner();
+                    elems.push(TcpOptionElement::MaximumSegmentSize(v));
+                    refs.push(ROpt::Mss(v));
+                    size += 4;
+                }
+                2 => {
+                    let v = rng.u8_corner();
+                    elems.push(TcpOptionElement::WindowScale(v));
+                    refs.push(ROpt::WScale(v));
+                    size += 3;
+                }
+                3 => {
+                    elems.push(TcpOptionElement::SelectiveAcknowledgementPermitted);
+                    refs.push(ROpt::SackPerm);
+                    size += 2;
+                }
+                4 => {
+                    let (a, b) = (rng.u32_corner(), rng.u32_corner());
+                    elems.push(TcpOptionElement::Timestamp(a, b));
+                    refs.push(ROpt::Ts(a, b));
+                    size += 10;
+                }
+                _ => {
+                    let first = (rng.u32(), rng.u32());
+                    let mut rest: [Option<(u32, u32)>; 3] = [None; 3];
+                    let mask = rng.below(8);
+                    let mut blocks = vec![first];
+                    for (i, r) in rest.iter_mut().enumerate() {
+                        if mask & (1 << i) != 0 {
+                            let b = (rng.u32(), rng.u32());
+                            *r = Some(b);
+                            blocks.push(b);
+                        }
+                    }
+                    if matches!(mask, 2 | 4 | 5 | 6) {
+                        rep.count("tcp_elements.sack_with_hole");
+                    }
+                    size += 2 + 8 * blocks.len();
+                    elems.push(TcpOptionElement::SelectiveAcknowledgement(first, rest));
+                    refs.push(ROpt::Sack(blocks));
+                }
+            }
+        }
+        let fits = size <= 40;
+        let enc = crate::refmodel::tcpopts::encode(&refs);
+        if enc.len() != size {
+            rep.selfcheck_fail(format!("reference encoder wrote {} octets for a list of size {}", enc.len(), size));
+            return;
+        }
+        let padded = (size + 3) / 4 * 4;
+        let judge = |rep: &mut Report, api: &str, got: Result<Vec<u8>, usize>, unchanged: bool| {
+            rep.evals += 1;
+            match got {
+                Ok(area) => {
+                    if !fits {
+                        rep.violation(&format!("accepts_unrepresentable|{}", api), format!("{}: accepted a list of {} octets", api, size), &enc);
+                    } else if area.len() != padded || area[..size] != enc[..] || area[size..].iter().any(|x| *x != 0) {
+                        rep.violation(&format!("encoded_value_differs|{}", api), format!("{}: option area {} but the list encodes to {} (+ padding to {})", api, crate::report::hex(&area), crate::report::hex(&enc), padded), &enc);
+                    } else {
+                        rep.count(&format!("accepted.{}", api));
+                    }
+                }
+                Err(n) => {
+                    if fits {
+                        rep.violation(&format!("rejects_representable|{}", api), format!("{}: rejected a list of {} octets (NotEnoughSpace({}))", api, size, n), &enc);
+                    } else if n != size {
+                        rep.violation(&format!("error_fields|{}", api), format!("{}: the list needs {} octets, the error says {}", api, size, n), &enc);
+                    } else if !unchanged {
+                        rep.violation(&format!("modified_on_error|{}", api), format!("{}: size {}", api, size), &enc);
+                    } else {
+                        rep.count(&format!("rejected.{}", api));
+                    }
+                }
+            }
+        };
+        let r = shell::guarded(|| {
+            let a = match TcpOptions::try_from_elements(&elems) {
+                Ok(o) => Ok(o.as_slice().to_vec()),
+                Err(TcpOptionWriteError::NotEnoughSpace(n)) => Err(n),
+            };
+            let base = {
+                let mut h = TcpHeader::new(1, 2, 3, 4);
+                h.set_options_raw(&[2, 4, 5, 0xb4]).unwrap();
+                h
+            };
+            let mut h = base.clone();
+            let b = match h.set_options(&elems) {
+                Ok(()) => Ok(h.options.as_slice().to_vec()),
+                Err(TcpOptionWriteError::NotEnoughSpace(n)) => Err(n),
+            };
+            let unchanged = h == base;
+            let c = match PacketBuilder::ipv4([1, 2, 3, 4], [5, 6, 7, 8], 9).tcp(1, 2, 3, 4).options(&elems) {
+                Ok(bld) => {
+                    let mut out = Vec::new();
+                    bld.write(&mut out, &[]).unwrap();
+                    let hl = 4 * (out[32] >> 4) as usize;
+                    Ok(out[40..20 + hl].to_vec())
+                }
+                Err(TcpOptionWriteError::NotEnoughSpace(n)) => Err(n),
+            };
+            (a, b, unchanged, c)
+        });
+        match r {
+            Ok((a, b, unchanged, c)) => {
+                judge(rep, "TcpOptions::try_from_elements", a, true);
+                judge(rep, "TcpHeader::set_options", b, unchanged);
+                judge(rep, "PacketBuilder::tcp().options", c, true);
+            }
+            Err(p) => {
+                if p.location().contains("etherparse/src/") {
+                    rep.violation(&format!("panic|tcp_elements|{}", p.location()), format!("a list of {} octets made the option encoder panic: {}", size, p.0), &enc);
+                } else {
+                    rep.selfcheck_fail(format!("harness panic in tcp_elements: {}", p.0));
+                }
+            }
+        }
+        rep.sig(&format!("tcp_elements|{}|{}", fits, size.min(48)));
+    }
+
     fn arp(&mut self, rep: &mut Report, rng: &mut Prng) {
         // RFC 826: hlen / plen 8 bit
         let lens = [0usize, 1, 4, 6, 16, 253, 254, 255, 256, 257, 300, 65536];
@@ -853,6 +988,7 @@ impl Monitor for C14 {
             ("options", 16),
             ("arp", tier.pick(640, 6400)),
             ("builder", tier.pick(3_000, 30_000)),
+            ("tcp_elements", tier.pick(200_000, 20_000_000)),
         ]
     }
 
@@ -868,6 +1004,7 @@ impl Monitor for C14 {
             "auth_ext" => self.auth_and_ext(rep, rng),
             "options" => self.options(rep),
             "arp" => self.arp(rep, rng),
+            "tcp_elements" => self.tcp_elements(rep, rng),
             "builder" => self.builder(rep, rng),
             _ => {}
         });
